@@ -121,6 +121,9 @@ impl Prop for C05 {
     fn assumptions(&self) -> Vec<String> {
         vec!["the lefrw binary is open+save; the save leg executes that in-process in both tiers, and the thorough tier additionally spawns the real binary (generator lefrw-binary; skipped with a counter if it cannot be built)".into()]
     }
+    fn miri_gen(&self) -> Option<&'static str> {
+        Some("reader-image")
+    }
     fn plan(&self, tier: Tier) -> Vec<GenSpec> {
         vec![
             GenSpec::random("reader-image", tier.pick(50_000, 2_000_000)),
